@@ -6,7 +6,7 @@ FLAGS = ("params", "rng", "inputs", "state", "output")
 
 
 def run(chk, replay=None):
-    chk.stage_proofs()
+    chk.stage_proofs(kernels=["Runner"])
     quick = chk.tier == "quick"
     r = chk.rnd
     combos = [dict(zip(FLAGS, bits)) for bits in itertools.product([False, True], repeat=5)]
